@@ -100,7 +100,9 @@ Theorem C14_dfs_exhaustive :
 Proof. exact dfs_exhaustive. Qed.
 Print Assumptions C14_dfs_exhaustive.
 
-Require Import LV.PathDistinct LV.PathApi LV.Prog LV.Objects LV.Exec LV.Check LV.PathExhaust LV.ExecFacts LV.ExecFacts2.
+(* ==== appended by tools/mkprops.py (APPEND table) ==== *)
+
+Require Import LV.Base LV.VV LV.VVFacts LV.Path LV.PathSpec LV.PathTerm LV.PathDistinct LV.PathApi LV.Prog LV.Objects LV.Exec LV.Atomic LV.Ops LV.Check LV.PathExhaust LV.ExecFacts LV.ExecFacts2.
 
 (* The abstract theorems above instantiated on the concrete iteration of the execution model (Check.iteration): L satisfies both iteration contracts (ExecFacts.L_iter_ok, ExecFacts2.L_iter_ok2) *)
 (* the exploration loop over the concrete iteration of the model L (every program, every fuel) stops by itself from the initial path *)
